@@ -1,6 +1,669 @@
-//! C47 — not implemented yet.
-use mc_core::Ctx;
+//! C47 — host memory access from WASM is always bounds-checked.
+//!
+//! Direct seam: the real `WasmiEngine` + `WasmiInstance::invoke_export` with the harness mock
+//! `WasmRuntime` (mock.rs) that records exactly the byte vectors every host call delivers.
+//! A generated WAT stub module imports every host function that takes a buffer and exports one
+//! forwarding function per import; linear memory is filled with a position dependent pattern.
+//!
+//! Enumerated exhaustively (no sampling):
+//!  * every buffer-taking host import × every (ptr,len) parameter pair of it × (ptr,len) ∈ G×G, the other
+//!    pairs valid; G = {0,1,4,size−4,size−1,size,size+1,2^31,2^32−1} (thorough: 21 values);
+//!  * for every host import with ≥ 2 pairs: the full product of 5 boundary ranges over all its pairs;
+//!  * the write paths: `buffer_consume` (destination pointer × length of the host-side buffer), the test-only
+//!    `test_host_write_memory`, with the memory dumped and diffed after each call;
+//!  * the return slice of `invoke_export`;
+//!  * all of it again after `memory.grow` (and for a module that starts with 2 pages).
+//!
+//! Oracle (written from the statement): with size = current byte length of the linear memory,
+//!   ptr+len ≤ size (computed in u64) ⇒ the call succeeds and the mock received exactly
+//!   pattern[ptr..ptr+len] for every pair (write: exactly [ptr,ptr+len) changed);
+//!   otherwise ⇒ the export fails with an error, the mock's method for that import was never entered and the
+//!   memory is unchanged; never a panic.
+//!   Empty ranges that start beyond the end (len = 0, ptr > size) are statement-silent: either outcome is
+//!   accepted and counted as informational.
+use crate::mock::{new_runtime, Call, Shared};
+use mc_core::{catch, par_for, Ctx, Level, Local};
+use radix_common::crypto::Hash;
+use radix_engine::errors::InvokeError;
+use radix_engine::vm::wasm::*;
+use radix_engine_interface::blueprints::package::CodeHash;
+use radix_engine_interface::types::Buffer;
+use serde_json::{json, Map};
+use std::collections::BTreeSet;
+use std::sync::atomic::{AtomicU64, Ordering};
 
-pub fn run(_ctx: Ctx) -> ! {
-    mc_core::machinery_error("C47: not implemented")
+const PAGE: u64 = 65536;
+
+/// (import name, parameter kinds: P ptr, L len, S scalar; result: v none / i i32 / l i64; mock method)
+pub const HOST_FNS: &[(&str, &str, char, &str)] = &[
+    ("object_call", "PLPLPL", 'l', "object_call"),
+    ("object_call_module", "PLSPLPL", 'l', "object_call_module"),
+    ("object_call_direct", "PLPLPL", 'l', "object_call_direct"),
+    ("blueprint_call", "PLPLPLPL", 'l', "blueprint_call"),
+    ("object_new", "PLPL", 'l', "object_new"),
+    ("kv_store_new", "PL", 'l', "key_value_store_new"),
+    ("address_allocate", "PLPL", 'l', "address_allocate"),
+    ("address_get_reservation_address", "PL", 'l', "address_get_reservation_address"),
+    ("object_globalize", "PLPLPL", 'l', "globalize_object"),
+    ("object_instance_of", "PLPLPL", 'i', "instance_of"),
+    ("object_get_blueprint_id", "PL", 'l', "blueprint_id"),
+    ("object_get_outer_object", "PL", 'l', "get_outer_object"),
+    ("kv_store_open_entry", "PLPLS", 'i', "key_value_store_open_entry"),
+    ("kv_entry_write", "SPL", 'v', "key_value_entry_set"),
+    ("kv_store_remove_entry", "PLPL", 'l', "key_value_store_remove_entry"),
+    ("field_entry_write", "SPL", 'v', "field_entry_write"),
+    ("actor_emit_event", "PLPLS", 'v', "actor_emit_event"),
+    ("sys_log", "PLPL", 'v', "sys_log"),
+    ("sys_bech32_encode_address", "PL", 'l', "sys_bech32_encode_address"),
+    ("sys_panic", "PL", 'v', "sys_panic"),
+    ("crypto_utils_bls12381_v1_verify", "PLPLPL", 'i', "crypto_utils_bls12381_v1_verify"),
+    ("crypto_utils_bls12381_v1_aggregate_verify", "PLPL", 'i', "crypto_utils_bls12381_v1_aggregate_verify"),
+    ("crypto_utils_bls12381_v1_fast_aggregate_verify", "PLPLPL", 'i', "crypto_utils_bls12381_v1_fast_aggregate_verify"),
+    ("crypto_utils_bls12381_g2_signature_aggregate", "PL", 'l', "crypto_utils_bls12381_g2_signature_aggregate"),
+    ("crypto_utils_keccak256_hash", "PL", 'l', "crypto_utils_keccak256_hash"),
+    ("crypto_utils_blake2b_256_hash", "PL", 'l', "crypto_utils_blake2b_256_hash"),
+    ("crypto_utils_ed25519_verify", "PLPLPL", 'i', "crypto_utils_ed25519_verify"),
+    ("crypto_utils_secp256k1_ecdsa_verify", "PLPLPL", 'i', "crypto_utils_secp256k1_ecdsa_verify"),
+    ("crypto_utils_secp256k1_ecdsa_verify_and_key_recover", "PLPL", 'l', "crypto_utils_secp256k1_ecdsa_verify_and_key_recover"),
+    ("crypto_utils_secp256k1_ecdsa_verify_and_key_recover_uncompressed", "PLPL", 'l', "crypto_utils_secp256k1_ecdsa_verify_and_key_recover_uncompressed"),
+    // test-only host function of the engine (feature radix_engine_tests): reads without calling the runtime
+    ("test_host_read_memory", "PL", 'v', ""),
+];
+
+#[inline]
+fn pat(i: u32) -> u8 {
+    (i.wrapping_mul(131).wrapping_add((i >> 8).wrapping_mul(17)).wrapping_add(7)) as u8
+}
+
+fn stub_wat(initial_pages: u32) -> String {
+    let mut s = String::from("(module\n");
+    for (name, kinds, ret, _) in HOST_FNS {
+        let params: String = kinds.chars().map(|_| " i32").collect();
+        let res = match ret {
+            'i' => " (result i32)",
+            'l' => " (result i64)",
+            _ => "",
+        };
+        s += &format!("  (import \"env\" \"{name}\" (func ${name} (param{params}){res}))\n");
+    }
+    s += "  (import \"env\" \"buffer_consume\" (func $buffer_consume (param i32 i32)))\n";
+    s += "  (import \"env\" \"test_host_write_memory\" (func $test_host_write_memory (param i32 i32)))\n";
+    s += &format!("  (memory $m {initial_pages})\n  (export \"memory\" (memory $m))\n");
+    for (name, kinds, ret, _) in HOST_FNS {
+        let n = kinds.len();
+        let params: String = (0..n).map(|_| " i64").collect();
+        s += &format!("  (func (export \"T_{name}\") (param{params}) (result i64)\n");
+        for i in 0..n {
+            s += &format!("    (i32.wrap_i64 (local.get {i}))\n");
+        }
+        s += &format!("    (call ${name})\n");
+        if *ret != 'v' {
+            s += "    drop\n";
+        }
+        s += "    (i64.const 0))\n";
+    }
+    s += r#"
+  (func (export "T_buffer_consume") (param i64 i64) (result i64)
+    (call $buffer_consume (i32.wrap_i64 (local.get 0)) (i32.wrap_i64 (local.get 1)))
+    (i64.const 0))
+  (func (export "T_test_host_write_memory") (param i64 i64) (result i64)
+    (call $test_host_write_memory (i32.wrap_i64 (local.get 0)) (i32.wrap_i64 (local.get 1)))
+    (i64.const 0))
+  ;; return slice (ptr,len) as given
+  (func (export "T_ret") (param i64 i64) (result i64)
+    (i64.or (i64.shl (i64.and (local.get 0) (i64.const 0xffffffff)) (i64.const 32)) (i64.and (local.get 1) (i64.const 0xffffffff))))
+  ;; memory.grow by n pages; returns the slice (0, previous size in pages or 0xffffffff)
+  (func (export "T_grow") (param i64) (result i64)
+    (drop (memory.grow (i32.wrap_i64 (local.get 0))))
+    (i64.const 0))
+  ;; slice (0, memory.size): the length of the returned vector is the size in pages
+  (func (export "T_pages") (result i64)
+    (i64.extend_i32_u (memory.size)))
+  ;; fill the whole memory with the position dependent pattern
+  (func (export "T_fill") (result i64) (local $i i32) (local $end i32)
+    (local.set $end (i32.mul (memory.size) (i32.const 65536)))
+    (block $done
+      (loop $l
+        (br_if $done (i32.ge_u (local.get $i) (local.get $end)))
+        (i32.store8 (local.get $i)
+          (i32.add (i32.add (i32.mul (local.get $i) (i32.const 131))
+                            (i32.mul (i32.shr_u (local.get $i) (i32.const 8)) (i32.const 17)))
+                   (i32.const 7)))
+        (local.set $i (i32.add (local.get $i) (i32.const 1)))
+        (br $l)))
+    (i64.const 0))
+)
+"#;
+    s
+}
+
+pub fn compile_checked(wat_text: &str) -> Vec<u8> {
+    let code = wat::parse_str(wat_text).unwrap_or_else(|e| mc_core::machinery_error(&format!("harness WAT does not parse: {e}")));
+    // the engine instantiates without validation (Module::new_unchecked): validate independently first
+    let mut v = wasmparser::Validator::new_with_features(wasmparser::WasmFeatures::WASM2);
+    if let Err(e) = v.validate_all(&code) {
+        mc_core::machinery_error(&format!("harness WAT is not a valid module: {e}"));
+    }
+    code
+}
+
+#[derive(Clone, Debug)]
+struct MemCfg {
+    initial: u32,
+    grow: u32,
+}
+
+#[derive(Clone, Debug)]
+enum Work {
+    /// single-pair sweeps + all-pairs boundary product for one host import
+    Reads(usize),
+    BufferConsume,
+    TestWrite,
+    RetSlice,
+}
+
+struct Inst {
+    inst: WasmiInstance,
+    rt: Box<dyn WasmRuntime>,
+    st: Shared,
+    size: u64,
+    pattern: Vec<u8>,
+}
+
+static HASH_CTR: AtomicU64 = AtomicU64::new(1);
+
+impl Inst {
+    fn new(code: &[u8], cfg: &MemCfg) -> Inst {
+        let engine = WasmiEngine::default();
+        let mut h = [0u8; 32];
+        h[..8].copy_from_slice(&HASH_CTR.fetch_add(1, Ordering::Relaxed).to_le_bytes());
+        let inst = engine.instantiate(CodeHash(Hash(h)), code);
+        let (rt, st) = new_runtime();
+        let mut me = Inst { inst, rt, st, size: 0, pattern: vec![] };
+        if cfg.grow > 0 {
+            me.call("T_grow", &[cfg.grow as u64]).unwrap_or_else(|e| mc_core::machinery_error(&format!("grow failed: {e}")));
+        }
+        let pages = me.call("T_pages", &[]).unwrap_or_else(|e| mc_core::machinery_error(&format!("pages failed: {e}"))).len() as u64;
+        if pages != (cfg.initial + cfg.grow) as u64 {
+            mc_core::machinery_error(&format!("stub memory has {pages} pages, expected {}", cfg.initial + cfg.grow));
+        }
+        me.size = pages * PAGE;
+        me.pattern = (0..me.size as u32).map(pat).collect();
+        me.fill();
+        me
+    }
+    fn fill(&mut self) {
+        self.call("T_fill", &[]).unwrap_or_else(|e| mc_core::machinery_error(&format!("fill failed: {e}")));
+    }
+    fn call(&mut self, export: &str, args: &[u64]) -> Result<Vec<u8>, String> {
+        let a: Vec<Buffer> = args.iter().map(|x| Buffer(*x)).collect();
+        self.inst.invoke_export(export, a, &mut self.rt).map_err(|e| format!("{e:?}"))
+    }
+    /// Ok(Ok(bytes)) | Ok(Err((is_memory_access_error, text))) | Err(panic)
+    fn call_caught(&mut self, export: &str, args: &[u64]) -> Result<Result<Vec<u8>, (bool, String)>, String> {
+        let a: Vec<Buffer> = args.iter().map(|x| Buffer(*x)).collect();
+        let inst = &mut self.inst;
+        let rt = &mut self.rt;
+        catch(move || inst.invoke_export(export, a, rt)).map(|r| {
+            r.map_err(|e| {
+                let mem = matches!(e, InvokeError::SelfError(WasmRuntimeError::MemoryAccessError));
+                (mem, format!("{e:?}"))
+            })
+        })
+    }
+    fn take_calls(&mut self) -> Vec<Call> {
+        std::mem::take(&mut self.st.borrow_mut().calls)
+    }
+    /// whole memory through the return-slice path (itself compared with the independent pattern)
+    fn dump(&mut self) -> Result<Vec<u8>, String> {
+        let size = self.size;
+        self.call("T_ret", &[0, size])
+    }
+}
+
+fn grid(size: u64, thorough: bool) -> Vec<u64> {
+    let mut g: BTreeSet<u64> = [0, 1, 4, size - 4, size - 1, size, size + 1, 1 << 31, (1u64 << 32) - 1].into_iter().collect();
+    if thorough {
+        for x in [2, 3, 255, 256, size / 2, size - 2, size + 4, (1 << 31) - 1, (1 << 31) + 1, (1u64 << 32) - size, (1u64 << 32) - 4, (1u64 << 32) - 2] {
+            g.insert(x);
+        }
+    }
+    g.into_iter().collect()
+}
+
+#[derive(PartialEq)]
+enum Expect {
+    InRange,
+    OutOfRange,
+    /// len == 0 and ptr > size: statement-silent
+    EmptyBeyond,
+}
+
+fn classify(ptr: u64, len: u64, size: u64) -> Expect {
+    if len == 0 && ptr > size {
+        Expect::EmptyBeyond
+    } else if ptr + len <= size {
+        Expect::InRange
+    } else {
+        Expect::OutOfRange
+    }
+}
+
+fn first_diff(a: &[u8], b: &[u8]) -> Option<usize> {
+    if a.len() != b.len() {
+        return Some(a.len().min(b.len()));
+    }
+    a.iter().zip(b.iter()).position(|(x, y)| x != y)
+}
+
+struct Counters {
+    nontrivial: AtomicU64,
+    pairs: AtomicU64,
+}
+
+/// One read-path case: `pairs[k] = (ptr,len)` for every pair of the import.
+#[allow(clippy::too_many_arguments)]
+fn read_case(it: &mut Inst, code: &[u8], cfg: &MemCfg, fi: usize, pairs: &[(u64, u64)], check_dump: bool, sweep: &str, l: &mut Local, cn: &Counters) {
+    let (name, kinds, _ret, method) = HOST_FNS[fi];
+    let size = it.size;
+    // build the argument vector
+    let mut args = vec![];
+    let mut scalars = vec![];
+    let mut pi = 0;
+    let mut chars = kinds.chars().peekable();
+    while let Some(c) = chars.next() {
+        match c {
+            'P' => {
+                args.push(pairs[pi].0);
+                args.push(pairs[pi].1);
+                chars.next(); // the L
+                pi += 1;
+            }
+            _ => {
+                // scalar: handle / module id / flags — 1 is valid for all of them (EventFlags::FORCE_WRITE)
+                args.push(1);
+                scalars.push(1u64);
+            }
+        }
+    }
+    let classes: Vec<Expect> = pairs.iter().map(|(p, n)| classify(*p, *n, size)).collect();
+    let any_out = classes.iter().any(|c| *c == Expect::OutOfRange);
+    let any_silent = classes.iter().any(|c| *c == Expect::EmptyBeyond);
+    l.eval();
+    let export = format!("T_{name}");
+    let case = || json!({"sweep": sweep, "import": name, "pairs": pairs, "memory_bytes": size, "initial_pages": cfg.initial, "grown_pages": cfg.grow});
+    let r = it.call_caught(&export, &args);
+    let calls = it.take_calls();
+    let mine: Vec<&Call> = calls.iter().filter(|c| !method.is_empty() && c.method == method).collect();
+    let foreign = calls.iter().filter(|c| method.is_empty() || c.method != method).count();
+    match r {
+        Err(p) => {
+            l.violation(format!("{name}:panic"), format!("host call panicked: {p} at {}", mc_core::last_panic_location()), case());
+            *it = Inst::new(code, cfg);
+            return;
+        }
+        Ok(Ok(_)) => {
+            if any_out {
+                l.violation(
+                    format!("{name}:out-of-range-accepted"),
+                    format!("a range outside the {size}-byte memory was accepted; mock calls: {:?}", summarize(&calls)),
+                    case(),
+                );
+                return;
+            }
+            if any_silent {
+                l.info("empty range starting beyond the end accepted (statement-silent)");
+            }
+            // exact delivery
+            if foreign > 0 {
+                l.info("host import delivered to a differently named runtime method");
+            }
+            if !method.is_empty() {
+                if mine.len() != 1 {
+                    l.violation(format!("{name}:delivery-count"), format!("runtime method {method} entered {} times", mine.len()), case());
+                    return;
+                }
+                let got = &mine[0].bufs;
+                let want: Vec<Vec<u8>> = pairs
+                    .iter()
+                    .map(|(p, n)| if *n == 0 { vec![] } else { it.pattern[*p as usize..(*p + *n) as usize].to_vec() })
+                    .collect();
+                if got != &want {
+                    let k = (0..want.len()).find(|k| got.get(*k) != Some(&want[*k])).unwrap_or(0);
+                    l.violation(
+                        format!("{name}:wrong-bytes"),
+                        format!(
+                            "pair {k}: runtime received {} bytes (head {}), expected exactly memory[{}..+{}] (head {})",
+                            got.get(k).map(|b| b.len()).unwrap_or(0),
+                            mc_core::hex(&got.get(k).map(|b| b[..b.len().min(8)].to_vec()).unwrap_or_default()),
+                            pairs[k].0,
+                            pairs[k].1,
+                            mc_core::hex(&want[k][..want[k].len().min(8)])
+                        ),
+                        case(),
+                    );
+                    return;
+                }
+                if mine[0].scalars != scalars {
+                    l.info("scalar arguments differ from the ones passed");
+                }
+            }
+            cn.nontrivial.fetch_add(1, Ordering::Relaxed);
+            l.class(if any_silent { "read: accepted, empty range beyond end" } else { "read: in range, exact bytes delivered" });
+        }
+        Ok(Err((is_mem, text))) => {
+            if !any_out && !any_silent {
+                l.violation(format!("{name}:in-range-rejected"), format!("an in-range call failed: {text}"), case());
+                return;
+            }
+            if !mine.is_empty() || foreign > 0 {
+                l.violation(
+                    format!("{name}:runtime-entered-on-failure"),
+                    format!("the call failed ({text}) but the runtime had already been entered: {:?}", summarize(&calls)),
+                    case(),
+                );
+                return;
+            }
+            if !is_mem {
+                l.info("out-of-range call failed with an error other than MemoryAccessError");
+            }
+            if any_out {
+                l.class("read: out of range, rejected with MemoryAccessError, runtime not entered");
+            } else {
+                l.class("read: rejected, empty range beyond end");
+                l.info("empty range starting beyond the end rejected (statement-silent)");
+            }
+        }
+    }
+    if check_dump {
+        match it.dump() {
+            Ok(d) => {
+                if let Some(i) = first_diff(&d, &it.pattern) {
+                    l.violation(format!("{name}:read-modified-memory"), format!("memory differs from the pattern at byte {i} after a read-path call"), case());
+                    it.fill();
+                }
+            }
+            Err(e) => l.violation(format!("{name}:dump-failed"), format!("whole-memory return slice failed: {e}"), case()),
+        }
+    }
+}
+
+fn summarize(calls: &[Call]) -> Vec<String> {
+    calls.iter().map(|c| format!("{}({:?} bytes)", c.method, c.bufs.iter().map(|b| b.len()).collect::<Vec<_>>())).collect()
+}
+
+fn valid_pair(j: usize) -> (u64, u64) {
+    (64 * (j as u64 + 1), 5 + j as u64)
+}
+
+fn run_reads(ctx: &Ctx, code: &[u8], cfg: &MemCfg, fi: usize, l: &mut Local, cn: &Counters) {
+    let mut it = Inst::new(code, cfg);
+    let size = it.size;
+    let kinds = HOST_FNS[fi].1;
+    let npairs = kinds.chars().filter(|c| *c == 'P').count();
+    let g = grid(size, !ctx.quick());
+    let check_dump = size <= 2 * PAGE;
+    cn.pairs.fetch_add(npairs as u64, Ordering::Relaxed);
+    // (1) single-pair sweeps
+    for k in 0..npairs {
+        for &p in &g {
+            for &n in &g {
+                let mut pairs: Vec<(u64, u64)> = (0..npairs).map(valid_pair).collect();
+                pairs[k] = (p, n);
+                read_case(&mut it, code, cfg, fi, &pairs, check_dump, "single-pair", l, cn);
+            }
+        }
+    }
+    // (2) all pairs at once over 5 boundary ranges
+    if npairs >= 2 {
+        let b: [(u64, u64); 5] = [(0, 4), (size - 1, 1), (size, 0), (size, 1), (1, (1u64 << 32) - 1)];
+        mc_core::gen::seqs_exact(5, npairs, &mut |ix| {
+            let pairs: Vec<(u64, u64)> = ix.iter().map(|i| b[*i]).collect();
+            read_case(&mut it, code, cfg, fi, &pairs, false, "all-pairs", l, cn);
+        });
+    }
+    l.sample(|| json!({"import": HOST_FNS[fi].0, "pairs": npairs, "grid": g, "memory_bytes": size}));
+}
+
+fn run_ret(ctx: &Ctx, code: &[u8], cfg: &MemCfg, l: &mut Local, cn: &Counters) {
+    let mut it = Inst::new(code, cfg);
+    let size = it.size;
+    let g = grid(size, !ctx.quick());
+    cn.pairs.fetch_add(1, Ordering::Relaxed);
+    for &p in &g {
+        for &n in &g {
+            l.eval();
+            let case = || json!({"sweep": "return-slice", "ptr": p, "len": n, "memory_bytes": size, "initial_pages": cfg.initial, "grown_pages": cfg.grow});
+            let e = classify(p, n, size);
+            match it.call_caught("T_ret", &[p, n]) {
+                Err(pn) => {
+                    l.violation("return-slice:panic", format!("panicked: {pn} at {}", mc_core::last_panic_location()), case());
+                    it = Inst::new(code, cfg);
+                }
+                Ok(Ok(bytes)) => match e {
+                    Expect::OutOfRange => l.violation("return-slice:out-of-range-accepted", format!("returned {} bytes", bytes.len()), case()),
+                    Expect::EmptyBeyond => {
+                        l.info("empty range starting beyond the end accepted (statement-silent)");
+                        l.class("return slice: accepted, empty range beyond end");
+                    }
+                    Expect::InRange => {
+                        if bytes[..] != it.pattern[p as usize..(p + n) as usize] {
+                            l.violation("return-slice:wrong-bytes", format!("returned {} bytes that are not memory[{p}..+{n}]", bytes.len()), case());
+                        } else {
+                            cn.nontrivial.fetch_add(1, Ordering::Relaxed);
+                            l.class("return slice: in range, exact bytes");
+                        }
+                    }
+                },
+                Ok(Err((is_mem, text))) => match e {
+                    Expect::InRange => l.violation("return-slice:in-range-rejected", text, case()),
+                    _ => {
+                        if !is_mem {
+                            l.info("out-of-range call failed with an error other than MemoryAccessError");
+                        }
+                        l.class("return slice: out of range, rejected");
+                    }
+                },
+            }
+            let _ = it.take_calls();
+        }
+    }
+}
+
+/// write path. `via_buffer`: buffer_consume(id, ptr) with a canned host buffer of `len` bytes;
+/// otherwise test_host_write_memory(ptr,len) which writes zeros.
+fn run_writes(ctx: &Ctx, code: &[u8], cfg: &MemCfg, via_buffer: bool, l: &mut Local, cn: &Counters) {
+    let mut it = Inst::new(code, cfg);
+    let size = it.size;
+    let name = if via_buffer { "buffer_consume" } else { "test_host_write_memory" };
+    let g = grid(size, !ctx.quick());
+    // lengths: the host-side buffer is really allocated, so lengths stay below 2^31
+    let lens: Vec<u64> = g.iter().copied().filter(|x| *x <= size + PAGE).collect();
+    cn.pairs.fetch_add(1, Ordering::Relaxed);
+    for &p in &g {
+        for &n in &lens {
+            l.eval();
+            let case = || json!({"sweep": "write", "import": name, "ptr": p, "len": n, "memory_bytes": size, "initial_pages": cfg.initial, "grown_pages": cfg.grow});
+            let content: Vec<u8> = if via_buffer { (0..n as u32).map(|i| 0xA5 ^ pat(i.wrapping_mul(3))).collect() } else { vec![0u8; n as usize] };
+            let r = if via_buffer {
+                it.st.borrow_mut().canned.insert(9, content.clone());
+                it.call_caught("T_buffer_consume", &[9, p])
+            } else {
+                it.call_caught("T_test_host_write_memory", &[p, n])
+            };
+            let _ = it.take_calls();
+            let e = classify(p, n, size);
+            let mut dirty = false;
+            match r {
+                Err(pn) => {
+                    l.violation(format!("{name}:panic"), format!("panicked: {pn} at {}", mc_core::last_panic_location()), case());
+                    it = Inst::new(code, cfg);
+                    continue;
+                }
+                Ok(Ok(_)) => {
+                    if e == Expect::OutOfRange {
+                        l.violation(format!("{name}:out-of-range-accepted"), "a write outside the memory was accepted".to_string(), case());
+                        it.fill();
+                        continue;
+                    }
+                    dirty = n > 0 && e == Expect::InRange;
+                    let mut want = it.pattern.clone();
+                    if e == Expect::InRange {
+                        want[p as usize..(p + n) as usize].copy_from_slice(&content);
+                    } else {
+                        l.info("empty range starting beyond the end accepted (statement-silent)");
+                    }
+                    match it.dump() {
+                        Ok(d) => {
+                            if let Some(i) = first_diff(&d, &want) {
+                                l.violation(
+                                    format!("{name}:wrong-range-written"),
+                                    format!("after writing {n} bytes at {p} memory byte {i} is {:#x}, expected {:#x}", d.get(i).copied().unwrap_or(0), want.get(i).copied().unwrap_or(0)),
+                                    case(),
+                                );
+                                dirty = true;
+                            } else {
+                                cn.nontrivial.fetch_add(1, Ordering::Relaxed);
+                                l.class("write: in range, exactly [ptr,ptr+len) changed");
+                            }
+                        }
+                        Err(er) => l.violation(format!("{name}:dump-failed"), er, case()),
+                    }
+                }
+                Ok(Err((is_mem, text))) => {
+                    if e == Expect::InRange {
+                        l.violation(format!("{name}:in-range-rejected"), text, case());
+                        continue;
+                    }
+                    if !is_mem {
+                        l.info("out-of-range call failed with an error other than MemoryAccessError");
+                    }
+                    match it.dump() {
+                        Ok(d) => {
+                            if let Some(i) = first_diff(&d, &it.pattern) {
+                                l.violation(format!("{name}:partial-write"), format!("the write failed but memory byte {i} changed"), case());
+                                dirty = true;
+                            } else {
+                                l.class("write: out of range, rejected, memory unchanged");
+                            }
+                        }
+                        Err(er) => l.violation(format!("{name}:dump-failed"), er, case()),
+                    }
+                }
+            }
+            if dirty {
+                it.fill();
+            }
+        }
+    }
+    if via_buffer {
+        // unknown buffer ids: the runtime's error must surface, memory untouched
+        for id in [0u64, 1, 8, 10, u32::MAX as u64] {
+            for &p in &g {
+                l.eval();
+                let case = || json!({"sweep": "write", "import": name, "buffer_id": id, "ptr": p, "memory_bytes": size});
+                match it.call_caught("T_buffer_consume", &[id, p]) {
+                    Err(pn) => {
+                        l.violation("buffer_consume:panic", format!("panicked: {pn}"), case());
+                        it = Inst::new(code, cfg);
+                    }
+                    Ok(Ok(_)) => l.violation("buffer_consume:unknown-id-accepted", "buffer_consume succeeded for an id the runtime does not know".to_string(), case()),
+                    Ok(Err(_)) => match it.dump() {
+                        Ok(d) if first_diff(&d, &it.pattern).is_none() => l.class("write: unknown buffer id, rejected, memory unchanged"),
+                        _ => l.violation("buffer_consume:unknown-id-wrote", "memory changed although the buffer id is unknown".to_string(), case()),
+                    },
+                }
+                let _ = it.take_calls();
+            }
+        }
+    }
+}
+
+pub fn run(ctx: Ctx) -> ! {
+    let mut cfgs = vec![MemCfg { initial: 1, grow: 0 }, MemCfg { initial: 1, grow: 1 }];
+    if !ctx.quick() {
+        cfgs.push(MemCfg { initial: 2, grow: 0 });
+        cfgs.push(MemCfg { initial: 1, grow: 2 });
+        cfgs.push(MemCfg { initial: 1, grow: 63 }); // the engine's 64-page limit
+    }
+    let codes: Vec<(u32, Vec<u8>)> = [1u32, 2].iter().map(|p| (*p, compile_checked(&stub_wat(*p)))).collect();
+    let mut items: Vec<(MemCfg, Work)> = vec![];
+    for c in &cfgs {
+        for fi in 0..HOST_FNS.len() {
+            items.push((c.clone(), Work::Reads(fi)));
+        }
+        items.push((c.clone(), Work::BufferConsume));
+        items.push((c.clone(), Work::TestWrite));
+        items.push((c.clone(), Work::RetSlice));
+    }
+    // big jobs first
+    items.sort_by_key(|(c, w)| {
+        let pages = (c.initial + c.grow) as i64;
+        let wgt = match w {
+            Work::Reads(fi) => HOST_FNS[*fi].1.len() as i64,
+            _ => 20,
+        };
+        -(pages * wgt)
+    });
+    let cn = Counters { nontrivial: AtomicU64::new(0), pairs: AtomicU64::new(0) };
+    if let Some(case) = ctx.read_replay_case() {
+        replay(&ctx, &codes, &case, &cn);
+    } else {
+        par_for(&ctx, &items, |(cfg, w), l| {
+            let code = &codes.iter().find(|(p, _)| *p == cfg.initial).unwrap().1;
+            match w {
+                Work::Reads(fi) => run_reads(&ctx, code, cfg, *fi, l, &cn),
+                Work::BufferConsume => run_writes(&ctx, code, cfg, true, l, &cn),
+                Work::TestWrite => run_writes(&ctx, code, cfg, false, l, &cn),
+                Work::RetSlice => run_ret(&ctx, code, cfg, l, &cn),
+            }
+        });
+    }
+    let mut cov = Map::new();
+    cov.insert("host_imports_with_buffers".into(), json!(HOST_FNS.len() + 2));
+    cov.insert("pointer_length_pairs_swept".into(), json!(cn.pairs.load(Ordering::Relaxed)));
+    cov.insert("memory_configurations".into(), json!(cfgs.iter().map(|c| format!("{} page(s) + grow {}", c.initial, c.grow)).collect::<Vec<_>>()));
+    cov.insert("grid_per_dimension".into(), json!(grid(PAGE, !ctx.quick()).len()));
+    let nontrivial = cn.nontrivial.load(Ordering::Relaxed);
+    ctx.finish(
+        Level::Exploration,
+        "calls whose ranges were all inside the memory and whose delivered bytes / written range were compared byte for byte",
+        nontrivial,
+        true,
+        cov,
+        &[
+            "the mock WasmRuntime stands in for ScryptoRuntime: what the real runtime does with the delivered bytes is out of scope",
+            "the WAT stub is validated with wasmparser 0.244 before the engine (which instantiates unchecked) sees it",
+            "host-side buffer lengths for the write path stay <= memory size + 1 page (they are really allocated)",
+            "64-bit host (usize = u64), as on every supported node platform",
+        ],
+    )
+}
+
+fn replay(ctx: &Ctx, codes: &[(u32, Vec<u8>)], case: &serde_json::Value, cn: &Counters) {
+    let cfg = MemCfg { initial: case["initial_pages"].as_u64().unwrap_or(1) as u32, grow: case["grown_pages"].as_u64().unwrap_or(0) as u32 };
+    let code = &codes.iter().find(|(p, _)| *p == cfg.initial).unwrap_or(&codes[0]).1;
+    let mut l = Local::new();
+    let sweep = case["sweep"].as_str().unwrap_or("");
+    match sweep {
+        "single-pair" | "all-pairs" => {
+            let name = case["import"].as_str().unwrap_or("");
+            let Some(fi) = HOST_FNS.iter().position(|f| f.0 == name) else { mc_core::machinery_error("replay: unknown import") };
+            let pairs: Vec<(u64, u64)> = case["pairs"].as_array().map(|a| a.iter().map(|p| (p[0].as_u64().unwrap_or(0), p[1].as_u64().unwrap_or(0))).collect()).unwrap_or_default();
+            let mut it = Inst::new(code, &cfg);
+            read_case(&mut it, code, &cfg, fi, &pairs, true, sweep, &mut l, cn);
+        }
+        "return-slice" => run_ret(ctx, code, &cfg, &mut l, cn),
+        _ => {
+            let via = case["import"].as_str() == Some("buffer_consume");
+            run_writes(ctx, code, &cfg, via, &mut l, cn)
+        }
+    }
+    for v in &l.violations {
+        println!("REPLAY: {} :: {}", v.key, v.what);
+    }
+    if l.violations.is_empty() {
+        println!("REPLAY: no violation reproduced");
+    }
+    ctx.merge(l);
 }
